@@ -285,42 +285,58 @@ Record s02 := mk02 {
   c_tgt : list (N * (N * bool));      (* call uid -> (actor, prep-style) *)
   c_pend : list (N * list N);         (* actor -> submitted Ready-calls not yet run/dropped, in order *)
   c_phase : list (N * N);             (* actor -> 1 Prep, 2 Ready, 3 Zombie *)
-  c_done : list N }.
+  c_done : list N;
+  c_tear : bool;                      (* queues are being dropped wholesale: inside Stakker::drop, or by Stakker::new *)
+  c_owed : list N }.                  (* actors whose Ready-calls were just discarded: they must be terminating *)
 
-Definition i02 : s02 := mk02 [] [] [] [].
+Definition i02 : s02 := mk02 [] [] [] [] false [].
 
 Definition pend_of (s : s02) (a : N) : list N := match nget (c_pend s) a with Some l => l | None => [] end.
 Definition phase_of (l : list (N * N)) (a : N) : N := match nget l a with Some p => p | None => 0%N end.
 
 Definition step02 (s : s02) (e : ev) : option s02 :=
+  (* a discarded Ready-call means its target is a Zombie, or terminates right now: the notification must come
+     before anything else starts *)
+  let starts := match e with ERun _ _ _ | EMeth _ _ _ | EPrep _ _ _ | ERunRet _ => true | _ => false end in
+  if starts && negb (nil_b (c_owed s)) then None else
   match e with
-  | ETarget u a p => Some (mk02 (nset (c_tgt s) u (a, p)) (c_pend s) (c_phase s) (c_done s))
+  | ENew _ => Some (mk02 (c_tgt s) (c_pend s) (c_phase s) (c_done s) true (c_owed s))
+  | ERunBegin _ _ => Some (mk02 (c_tgt s) (c_pend s) (c_phase s) (c_done s) false (c_owed s))
+  | EDropBegin => Some (mk02 (c_tgt s) (c_pend s) (c_phase s) (c_done s) true (c_owed s))
+  | ETarget u a p => Some (mk02 (nset (c_tgt s) u (a, p)) (c_pend s) (c_phase s) (c_done s) (c_tear s) (c_owed s))
   | ESub QMain u _ =>
       match nget (c_tgt s) u with
-      | Some (a, false) => Some (mk02 (c_tgt s) (nset (c_pend s) a (pend_of s a ++ [u])) (c_phase s) (c_done s))
+      | Some (a, false) => Some (mk02 (c_tgt s) (nset (c_pend s) a (pend_of s a ++ [u])) (c_phase s) (c_done s) (c_tear s) (c_owed s))
       | _ => Some s
       end
-  | EActor a => Some (mk02 (c_tgt s) (c_pend s) (nset (c_phase s) a 1%N) (c_done s))
-  | EReady a => guard (N.eqb (phase_of (c_phase s) a) 1) (mk02 (c_tgt s) (c_pend s) (nset (c_phase s) a 2%N) (c_done s))
-  | ENotify a _ => Some (mk02 (c_tgt s) (c_pend s) (nset (c_phase s) a 3%N) (c_done s))
+  | EActor a => Some (mk02 (c_tgt s) (c_pend s) (nset (c_phase s) a 1%N) (c_done s) (c_tear s) (c_owed s))
+  | EReady a => guard (N.eqb (phase_of (c_phase s) a) 1) (mk02 (c_tgt s) (c_pend s) (nset (c_phase s) a 2%N) (c_done s) (c_tear s) (c_owed s))
+  | ENotify a _ => Some (mk02 (c_tgt s) (c_pend s) (nset (c_phase s) a 3%N) (c_done s) (c_tear s) (nremove a (c_owed s)))
   | EMeth a u _ =>
       guard (N.eqb (phase_of (c_phase s) a) 2 && hd_is u (pend_of s a) && negb (nmem u (c_done s))
              && match nget (c_tgt s) u with Some (a', false) => N.eqb a a' | _ => false end)
-            (mk02 (c_tgt s) (nset (c_pend s) a (nremove u (pend_of s a))) (c_phase s) (u :: c_done s))
+            (mk02 (c_tgt s) (nset (c_pend s) a (nremove u (pend_of s a))) (c_phase s) (u :: c_done s) (c_tear s) (c_owed s))
   | EPrep a u _ =>
       guard (N.eqb (phase_of (c_phase s) a) 1 && negb (nmem u (c_done s))
              && match nget (c_tgt s) u with Some (a', true) => N.eqb a a' | _ => false end)
-            (mk02 (c_tgt s) (c_pend s) (c_phase s) (u :: c_done s))
-  | EDrop u _ _ =>
+            (mk02 (c_tgt s) (c_pend s) (c_phase s) (u :: c_done s) (c_tear s) (c_owed s))
+  | EDrop u q _ =>
       match nget (c_tgt s) u with
-      | Some (a, _) => guard (negb (nmem u (c_done s)))
-                             (mk02 (c_tgt s) (nset (c_pend s) a (nremove u (pend_of s a))) (c_phase s) (u :: c_done s))
+      | Some (a, prep) =>
+          (* only a call that was actually queued can be "discarded"; an unsent ret_some_to closure is just dropped *)
+          let owed := match q with
+                      | Some _ => if prep || c_tear s || N.eqb (phase_of (c_phase s) a) 3 || nmem a (c_owed s)
+                                  then c_owed s else a :: c_owed s
+                      | None => c_owed s
+                      end in
+          guard (negb (nmem u (c_done s)))
+                (mk02 (c_tgt s) (nset (c_pend s) a (nremove u (pend_of s a))) (c_phase s) (u :: c_done s) (c_tear s) owed)
       | None => Some s
       end
   | _ => Some s
   end.
 
-Definition C02_ok (t : list ev) : bool := fold_mon step02 (fun _ => true) i02 t.
+Definition C02_ok (t : list ev) : bool := fold_mon step02 (fun s => nil_b (c_owed s)) i02 t.
 
 (* ------------------------------------------------------------------ *)
 (** * C03: an actor terminates once *)
@@ -466,9 +482,20 @@ Record s05 := mk05 {
   r_inv : list (N * option N);
   r_to : list (N * (N * bool));       (* ret -> (call uid, some-only) *)
   r_callsub : list N;                 (* call uids already queued *)
-  r_prev : option ev }.
+  r_prev : option ev;
+  r_tvar : list ((tk * N) * N);       (* timer variable -> closure held by that timer *)
+  r_tlive : list N }.                 (* timer closures neither run nor dropped *)
 
-Definition i05 : s05 := mk05 [] [] [] [] [] None.
+Definition i05 : s05 := mk05 [] [] [] [] [] None [] [].
+
+Definition tk_eqb5 (a b : tk) : bool :=
+  match a, b with TFixed, TFixed | TMax, TMax | TMin, TMin => true | _, _ => false end.
+
+Fixpoint tv_get (l : list ((tk * N) * N)) (k : tk) (v : N) : option N :=
+  match l with
+  | [] => None
+  | ((k', v'), u) :: r => if tk_eqb5 k k' && N.eqb v v' then Some u else tv_get r k v
+  end.
 
 Fixpoint ret_of_call (l : list (N * (N * bool))) (u : N) : option (N * bool) :=
   match l with
@@ -486,18 +513,18 @@ Definition step05 (s : s05) (e : ev) : option s05 :=
              | _ => true
              end in
   if negb adj then None else
-  let s := mk05 (r_new s) (r_sent s) (r_inv s) (r_to s) (r_callsub s) (Some e) in
+  let s := mk05 (r_new s) (r_sent s) (r_inv s) (r_to s) (r_callsub s) (Some e) (r_tvar s) (r_tlive s) in
   match e with
-  | ERetNew r => guard (negb (nmem r (r_new s))) (mk05 (r :: r_new s) (r_sent s) (r_inv s) (r_to s) (r_callsub s) (r_prev s))
-  | ERetTo r u b => Some (mk05 (r_new s) (r_sent s) (r_inv s) (nset (r_to s) r (u, b)) (r_callsub s) (r_prev s))
+  | ERetNew r => guard (negb (nmem r (r_new s))) (mk05 (r :: r_new s) (r_sent s) (r_inv s) (r_to s) (r_callsub s) (r_prev s) (r_tvar s) (r_tlive s))
+  | ERetTo r u b => Some (mk05 (r_new s) (r_sent s) (r_inv s) (nset (r_to s) r (u, b)) (r_callsub s) (r_prev s) (r_tvar s) (r_tlive s))
   | ERetSent r v =>
       guard (nmem r (r_new s) && match nget (r_sent s) r with None => true | _ => false end
              && match nget (r_inv s) r with None => true | _ => false end)
-            (mk05 (r_new s) (nset (r_sent s) r v) (r_inv s) (r_to s) (r_callsub s) (r_prev s))
+            (mk05 (r_new s) (nset (r_sent s) r v) (r_inv s) (r_to s) (r_callsub s) (r_prev s) (r_tvar s) (r_tlive s))
   | ERet r m =>
       guard (nmem r (r_new s) && match nget (r_inv s) r with None => true | _ => false end
              && opt_n_eqb m (nget (r_sent s) r))
-            (mk05 (r_new s) (r_sent s) (nset (r_inv s) r m) (r_to s) (r_callsub s) (r_prev s))
+            (mk05 (r_new s) (r_sent s) (nset (r_inv s) r m) (r_to s) (r_callsub s) (r_prev s) (r_tvar s) (r_tlive s))
   | ESub QMain u _ =>
       match ret_of_call (r_to s) u with
       | Some (r, some) =>
@@ -507,7 +534,7 @@ Definition step05 (s : s05) (e : ev) : option s05 :=
                  | Some None => negb some
                  | None => false
                  end)
-                (mk05 (r_new s) (r_sent s) (r_inv s) (r_to s) (u :: r_callsub s) (r_prev s))
+                (mk05 (r_new s) (r_sent s) (r_inv s) (r_to s) (u :: r_callsub s) (r_prev s) (r_tvar s) (r_tlive s))
       | None => Some s
       end
   | EMeth _ u _ =>
@@ -515,6 +542,12 @@ Definition step05 (s : s05) (e : ev) : option s05 :=
       | Some _ => guard (nmem u (r_callsub s)) s
       | None => Some s
       end
+  | ESub QTimer u _ => Some (mk05 (r_new s) (r_sent s) (r_inv s) (r_to s) (r_callsub s) (r_prev s) (r_tvar s) (u :: r_tlive s))
+  | ETimerVar k v u => Some (mk05 (r_new s) (r_sent s) (r_inv s) (r_to s) (r_callsub s) (r_prev s) (((k, v), u) :: r_tvar s) (r_tlive s))
+  | ERun u _ _ | EDrop u _ _ => Some (mk05 (r_new s) (r_sent s) (r_inv s) (r_to s) (r_callsub s) (r_prev s) (r_tvar s) (nremove u (r_tlive s)))
+  | ETimerDel k v true =>
+      (* a deleted timer's closure -- and every Ret it captured -- is released at the deletion *)
+      guard (match tv_get (r_tvar s) k v with Some u => negb (nmem u (r_tlive s)) | None => true end) s
   | ELeak k _ => if N.eqb k LK_RET then None else Some s
   | _ => Some s
   end.
@@ -537,6 +570,7 @@ Definition created16 (e : ev) : option (N * N) :=
   | EActor a => Some (LK_NOTIFY, a)
   | ETokNew t => Some (LK_TOK, t)
   | EFwdNew f => Some (LK_FWD, f)
+  | EOrphNew a => Some (LK_ORPH, a)
   | _ => None
   end.
 
@@ -548,6 +582,7 @@ Definition consumed16 (e : ev) : option (N * N) :=
   | ENotify a _ => Some (LK_NOTIFY, a)
   | ETokDrop t => Some (LK_TOK, t)
   | EFwdFree f => Some (LK_FWD, f)
+  | EOrphDrop a => Some (LK_ORPH, a)
   | _ => None
   end.
 
